@@ -39,6 +39,78 @@ class Obligation:
         return s.to_smt2()
 
 
+_TERM_MEMO: dict = {}
+_SORT_MEMO: dict = {}
+
+
+def _sort_sig(srt) -> str:
+    key = srt.sexpr()
+    if key in _SORT_MEMO:
+        return _SORT_MEMO[key]
+    _SORT_MEMO[key] = key          # recursion guard (recursive datatypes)
+    k = srt.kind()
+    if k == z3.Z3_DATATYPE_SORT:
+        parts = [srt.name()]
+        for i in range(srt.num_constructors()):
+            c = srt.constructor(i)
+            parts.append(c.name())
+            for j in range(c.arity()):
+                parts.append(srt.accessor(i, j).name() + ":" + _sort_sig(c.domain(j)))
+        sig = "(" + " ".join(parts) + ")"
+    elif k == z3.Z3_ARRAY_SORT:
+        sig = f"(Array {_sort_sig(srt.domain())} {_sort_sig(srt.range())})"
+    elif k == z3.Z3_SEQ_SORT and not srt.is_string():
+        sig = f"(Seq {_sort_sig(srt.basis())})"
+    else:
+        sig = key
+    _SORT_MEMO[key] = sig
+    return sig
+
+
+def _term_hash(root) -> str:
+    """structural hash of a z3 term (DAG walk, iterative): declaration names, sorts with their definitions, de Bruijn indices."""
+    import hashlib
+    stack = [(root, False)]
+    while stack:
+        t, done = stack.pop()
+        i = t.get_id()
+        if i in _TERM_MEMO:
+            continue
+        if z3.is_quantifier(t):
+            kids = [t.body()] + [t.pattern(k) for k in range(t.num_patterns())]
+        elif z3.is_app(t):
+            kids = t.children()
+        else:
+            kids = []
+        if not done:
+            stack.append((t, True))
+            stack.extend((k, False) for k in kids if k.get_id() not in _TERM_MEMO)
+            continue
+        if z3.is_quantifier(t):
+            parts = ["Q", "forall" if t.is_forall() else "exists" if t.is_exists() else "lambda", str(t.num_vars())] + \
+                [_sort_sig(t.var_sort(k)) for k in range(t.num_vars())]
+        elif z3.is_var(t):
+            parts = ["V", str(z3.get_var_index(t)), _sort_sig(t.sort())]
+        elif z3.is_app(t) and t.num_args() == 0:
+            parts = ["C", t.sexpr(), _sort_sig(t.sort())]
+        elif z3.is_app(t):
+            d = t.decl()
+            parts = ["A", d.name(), str(d.kind()), _sort_sig(t.sort())]
+        else:
+            parts = ["?", t.sexpr()]
+        parts += [_TERM_MEMO[k.get_id()][0] for k in kids]
+        _TERM_MEMO[i] = (hashlib.sha1("\x00".join(parts).encode()).hexdigest(), t)     # the term is kept alive: ids are not reused
+    return _TERM_MEMO[root.get_id()][0]
+
+
+def vc_hash(ob) -> str:
+    """Identity of a verification condition: hypotheses in order, goal, polarity.  Generated names are deterministic
+    (counter reset per function, fixed PYTHONHASHSEED), so the same source and the same contracts give the same hash."""
+    import hashlib
+    parts = ["sat" if ob.expect_sat else "valid"] + [_term_hash(c) for c in ob.pc] + [_term_hash(ob.goal)]
+    return hashlib.sha256("\x00".join(parts).encode()).hexdigest()[:24]
+
+
 def _run_cvc5(smt2: str, timeout_ms: int, strings=True):
     if not os.path.exists(CVC5_BIN):
         return "unknown", "cvc5 not found"
